@@ -20,7 +20,8 @@ NOTES = {
 
 def parse_batches():
     res = {}        # name -> {check: (rc, line)}
-    logs = sorted(glob.glob(os.path.join(ROOT, "work", "t", "mutbatch[2-9]*.log"))) + [os.path.join(ROOT, "work", "t", "mutbatch.log")]
+    logs = sorted(glob.glob(os.path.join(ROOT, "work", "t", "mutbatch[2-9]*.log")), key=os.path.getmtime) + \
+        sorted(glob.glob(os.path.join(ROOT, "work", "t", "mutbatchB*.log")) + [os.path.join(ROOT, "work", "t", "mutbatch.log")], key=lambda f: os.path.getmtime(f) if os.path.exists(f) else 0)
     for lg in logs:
         if not os.path.exists(lg):
             continue
